@@ -27,7 +27,7 @@ theorem wt_simple_mono {vtys : List CSem.Ty} {ret : CSem.Ty} {st : Stmt} (hs : s
     simp only [Stmt.wt] at h ⊢
     split at h
     · rename_i hw
-      rw [if_pos ⟨by omega, hw.2.1, hw.2.2⟩]
+      rw [if_pos ⟨by omega, hw.2⟩]
     · cases h
   · rename_i e
     simp only [Stmt.wt] at h ⊢
